@@ -314,7 +314,48 @@ def r07_9(ctx):
     ctx.ob("R07.9", "serialize-passes-the-callers-options", ok, detail, "html5ever serialize::serialize")
 
 
+def r07_13(ctx):
+    """rcdom's Serialize: 'inner equals outer' needs the nodes written between an element's start and end tag to be the very
+    nodes written for that element as the ChildrenOnly root: both are the node's `children`, in order"""
+    from . import nfq
+    key, pcs = nfq.cells(ctx, "rcdom", "::SerializableHandle[Serialize]::serialize")
+    bad = None
+    roots, inner = set(), set()
+    for pc in nfq.feasible(pcs):
+        acts = [(a, tuple(str(x) for x in args)) for a, args in pc["actions"]]
+        names = [a for a, _ in acts]
+        se = [args for a, args in acts if a.endswith(".start_elem")]
+        loops = [a[len("loop-begin for _ in "):] for a in names if a.startswith("loop-begin for _ in ")]
+        if pc["guards"].get("p2 matches IncludeNode") is False:
+            if not loops:
+                bad = "ChildrenOnly does not walk the children of the root"
+                continue
+            roots.add(re.sub(r"^self\.0", "N", loops[0]))
+            loops = loops[1:]
+        if se and any(a.endswith(".push_front") or a.endswith(".push_back") or a.endswith(".push") for a in names[names.index([a for a in names if a.endswith(".start_elem")][0]):]):
+            m = re.match(r"(.*)\.data\.name$", se[0][0])
+            if not m:
+                bad = "start_elem is not given the node's own name (%s)" % se[0][0][:60]
+                continue
+            node = m.group(1)
+            own = [l for l in loops if l.startswith(node)]
+            other = [l for l in loops if not l.startswith(node)]
+            if len(own) != 1 or other:
+                bad = "after the start tag of an element the nodes queued are %s, not the element's own children" % (loops[:2],)
+                continue
+            inner.add("N" + own[0][len(node):])
+    ok = bad is None and roots == {"N.children.iter()"} and inner == {"N.children.iter().rev()"}
+    if bad is None and not ok:
+        bad = "the ChildrenOnly root contributes %s, an element inside the tree contributes %s (pushed to the front in reverse): the same element serializes different children as root and as inner node" % (sorted(roots), sorted(inner))
+    ctx.ob("R07.13", "inner-and-outer-walk-the-same-children", ok, bad or "both the root's and an inner element's contribution are node.children, in order", "rcdom SerializableHandle::serialize")
+
+
 def run(ctx):
+    ctx.rule("R07.13", "rcdom Serialize: the root's children (ChildrenOnly) and an inner element's children (between its tags) are the same list, node.children")
+    ctx.guard("R07.13", "rcdom-serialize", lambda: r07_13(ctx))
+    ctx.rule("R07.12", "what the serializer escapes is decoded again at the very end of a fragment too: end of input inside a character reference looks up the name matched so far (R14.10)")
+    from . import tokrules as _tr12
+    ctx.guard("R07.12", "charref-eof/html", lambda: _tr12.charref_eof_resolution(ctx, "R07.12", "html"))
     ctx.rule("R07.11", "the tokenizer takes attribute value characters verbatim (no folding of line breaks or other characters inside a value)")
     from . import tokrules as _trv
     for _w in ('html',):
